@@ -3,7 +3,10 @@
    Executable model of the message bus as far as monitors are concerned
    (dbus 1.13.18):
 
-     bus/driver.c      bus_driver_handle_become_monitor          -> become_monitor
+     bus/driver.c      bus_driver_handle_message (privilege, signature)
+                       + bus_driver_handle_become_monitor (flags,
+                       rule parsing loop)                         -> become_monitor_call, parse_all
+                       bus_driver_handle_become_monitor (ack)    -> become_monitor
                        bus_driver_handle_hello / send_welcome    -> connect
                        bus_driver_handle_acquire_service,
                        bus_driver_handle_release_service         -> request_name, release_name
@@ -20,8 +23,12 @@
                        bus_connection_drop_pending_replies,
                        bus_pending_reply_expired                 -> drop_pending, noreply_items
                        bus_connections_expect_reply/_check_reply -> expect_reply, check_reply
-     bus/dispatch.c    bus_dispatch                              -> step (ESend), dispatch, "monitor sends" test
-                       bus_dispatch_matches, send_one_message    -> fanout
+     bus/dispatch.c    bus_dispatch                              -> step (ESend), dispatch, no_owner, "monitor sends" test
+                       bus_dispatch_matches, send_one_message    -> deliver, fanout
+     bus/activation.c  bus_activation_activate_service (auto
+                       activation: service file lookup, send
+                       policy, hold), bus_activation_send_pending_
+                       auto_activation_messages                  -> no_owner, release_held, resume_all
      bus/signals.c     match_rule_matches (keys type, sender,
                        destination, interface, member, eavesdrop)-> fmatch
                        bus_matchmaker_get_recipients             -> get_recipients
@@ -118,6 +125,8 @@ Definition E_NAME_HAS_NO_OWNER : N := 3.
 Definition E_NO_REPLY : N := 4.
 Definition E_UNKNOWN_METHOD : N := 5.
 Definition E_UNKNOWN_INTERFACE : N := 6.
+Definition E_INVALID_ARGS : N := 7.
+Definition E_MATCH_RULE_INVALID : N := 8.
 
 Record bmsg := mkB {
   b_type : mtype;
@@ -159,9 +168,14 @@ Record state := mkState {
   st_rules : list (cid * flt);       (* ordinary matchmaker, oldest first *)
   st_mrules : list (cid * flt);      (* connections->monitor_matchmaker *)
   st_mons : list cid;                   (* connections->monitors *)
-  st_pend : list pend }.                (* connections->pending_replies, first link first *)
+  st_pend : list pend;                  (* connections->pending_replies, first link first *)
+  st_unpriv : list cid;                 (* connections whose uid is neither root nor the bus's own *)
+  st_held : list (name * cid * bmsg) }. (* activation->pending_activations: (service name, sender, message) entries, oldest first *)
 
-Definition init : state := mkState [] 0 [] [] [] [] [].
+Definition init : state := mkState [] 0 [] [] [] [] [] [] [].
+
+(* a state that differs from [S] in the first seven fields only *)
+Notation upd S a b c d e f g := (mkState a b c d e f g (st_unpriv S) (st_held S)).
 
 Definition memN (c : cid) (l : list cid) : bool := existsb (N.eqb c) l.
 Definition connected (st : state) (c : cid) : bool := memN c (st_conns st).
@@ -248,10 +262,11 @@ Record item := mkItem {
   i_local : bool;               (* handled on the bus's side of the socket by libdbus itself, bus_dispatch never ran *)
   i_cap : list cid;
   i_direct : option cid;
-  i_match : list cid }.
+  i_match : list cid;
+  i_resumed : bool }.           (* a held message whose dispatch is resumed (captured when it was received, not again) *)
 
 Definition mk_item (st : state) (from addr : option cid) (m : bmsg) (direct : option cid) (mt : list cid) : item :=
-  mkItem (st_own st) from addr m false (capture st from addr m) direct mt.
+  mkItem (st_own st) from addr m false (capture st from addr m) direct mt false.
 
 Inductive kind := KCapture | KDirect | KMatch | KLocal.
 Definition out := list (cid * kind * bmsg).
@@ -348,9 +363,9 @@ Definition orphaned (pl : list pend) (c : cid) : list pend :=
   filter (fun p => negb (p_get p =? c) && (match p_send p with Some s => s =? c | None => false end)) pl.
 
 Definition set_pend (st : state) (pl : list pend) : state :=
-  mkState (st_conns st) (st_next st) (st_own st) (st_rules st) (st_mrules st) (st_mons st) pl.
+  upd st (st_conns st) (st_next st) (st_own st) (st_rules st) (st_mrules st) (st_mons st) pl.
 Definition set_own (st : state) (own : registry) : state :=
-  mkState (st_conns st) (st_next st) own (st_rules st) (st_mrules st) (st_mons st) (st_pend st).
+  upd st (st_conns st) (st_next st) own (st_rules st) (st_mrules st) (st_mons st) (st_pend st).
 
 (* bus_pending_reply_send_no_reply, one transaction per entry *)
 Definition noreply_items (st : state) (c : cid) : state * list item :=
@@ -403,20 +418,21 @@ Definition mm_disconnected (rules : list (cid * flt)) (c : cid) : list (cid * fl
 
 (* ---------------------------------------------------------------- events *)
 Inductive event :=
-| EConnect                                               (* new connection: authentication and Hello *)
+| EConnect (priv : bool)                                 (* new connection: authentication (uid root / bus owner or not) and Hello *)
 | EDisconnect (c : cid)                                  (* c's socket closes *)
 | ESend (c : cid) (m : bmsg)                             (* c writes m (SENDER as written is ignored) *)
 | ERequestName (c : cid) (serial : N) (n : N) (dnq : bool)   (* flags 0 or DBUS_NAME_FLAG_DO_NOT_QUEUE *)
 | EReleaseName (c : cid) (serial : N) (n : N)
 | EAddMatch (c : cid) (serial : N) (f : flt)
 | EGetId (c : cid) (serial : N)
-| EBecomeMonitor (c : cid) (serial : N) (fs : list flt).
+| EBecomeMonitor (c : cid) (serial : N) (sig_ok : bool) (flags : N) (rs : list (option flt)).
+    (* body signature is "asu" or not; the flags word; each rule string as bus_match_rule_parse sees it: None = does not parse *)
 
 Definition actor (e : event) : option cid :=
   match e with
-  | EConnect => None
+  | EConnect _ => None
   | EDisconnect c | ESend c _ | ERequestName c _ _ _ | EReleaseName c _ _ | EAddMatch c _ _ | EGetId c _
-  | EBecomeMonitor c _ _ => Some c
+  | EBecomeMonitor c _ _ _ _ => Some c
   end.
 
 (* the message a driver-method event puts on the wire *)
@@ -425,13 +441,13 @@ Definition call_msg (c : cid) (serial iface member : N) : bmsg :=
 
 Definition wire_msg (e : event) : option bmsg :=
   match e with
-  | EConnect | EDisconnect _ => None
+  | EConnect _ | EDisconnect _ => None
   | ESend c m => Some (stamp c m)
   | ERequestName c s _ _ => Some (call_msg c s I_DBUS M_REQUEST_NAME)
   | EReleaseName c s _ => Some (call_msg c s I_DBUS M_RELEASE_NAME)
   | EAddMatch c s _ => Some (call_msg c s I_DBUS M_ADD_MATCH)
   | EGetId c s => Some (call_msg c s I_DBUS M_GET_ID)
-  | EBecomeMonitor c s _ => Some (call_msg c s I_MONITORING M_BECOME_MONITOR)
+  | EBecomeMonitor c s _ _ _ => Some (call_msg c s I_MONITORING M_BECOME_MONITOR)
   end.
 
 (* ---------------------------------------------------------------- what libdbus answers by itself *)
@@ -455,9 +471,9 @@ Definition local_answer (m : bmsg) : option bmsg :=
     else None.
 
 Definition local_items (st : state) (c : cid) (m : bmsg) : list item :=
-  mkItem (st_own st) (Some c) None m true [] None [] ::
+  mkItem (st_own st) (Some c) None m true [] None [] false ::
   match local_answer m with
-  | Some r => [mkItem (st_own st) None (Some c) r true [] (Some c) []]
+  | Some r => [mkItem (st_own st) None (Some c) r true [] (Some c) [] false]
   | None => []
   end.
 
@@ -480,6 +496,37 @@ Definition driver_generic (st : state) (c : cid) (m : bmsg) : state * list item 
   | _ => (st, [])
   end.
 
+(* bus_dispatch_matches (transaction, sender c, addressed recipient r, m): policy, queue for r, ordinary rules; on a
+   refusal the error goes back to c.  [resumed] = the call comes from bus_activation_send_pending_auto_activation_messages
+   ("resume dispatching where we left off in bus_dispatch()"): the message was captured when it was received and is not
+   captured again. *)
+Definition deliver (st : state) (c r : cid) (m : bmsg) (resumed : bool) : state * list item :=
+  let '(pl, verdict) := check_policy (st_pend st) c r m in
+  let st' := set_pend st pl in
+  let it := fun d mt => if resumed then mkItem (st_own st) (Some c) (Some r) m false [] d mt true
+                        else mk_item st (Some c) (Some r) m d mt in
+  match verdict with
+  | Some e => (st', [it None []; error_reply st' c m e])
+  | None =>
+      let '(rs, refused) := fanout st' (Some c) (Some r) m in
+      (st', it (Some r) rs :: refused)
+  end.
+
+(* service files exist for the well-known names numbered 4 and up (Exec is a program that exits with status 0 without
+   ever claiming the name, so the activation stays pending until somebody else acquires the name) *)
+Definition activatable (d : name) : bool := match d with NWk k => 4 <=? k | _ => false end.
+
+Definition set_held (st : state) (h : list (name * cid * bmsg)) : state :=
+  mkState (st_conns st) (st_next st) (st_own st) (st_rules st) (st_mrules st) (st_mons st) (st_pend st) (st_unpriv st) h.
+
+(* bus_dispatch, destination without owner: capture, then NameHasNoOwner (NO_AUTO_START) or
+   bus_activation_activate_service: no service file -> ServiceUnknown; send policy; else the message is held *)
+Definition no_owner (st : state) (c : cid) (d : name) (m : bmsg) : state * list item :=
+  if b_noauto m then (st, [entry_item st c m; error_reply st c m E_NAME_HAS_NO_OWNER])
+  else if negb (activatable d) then (st, [entry_item st c m; error_reply st c m E_SERVICE_UNKNOWN])
+  else if deny_send m false then (st, [entry_item st c m; error_reply st c m E_ACCESS_DENIED])
+  else (set_held st (st_held st ++ [(d, c, m)]), [entry_item st c m]).
+
 Definition dispatch (st : state) (c : cid) (m : bmsg) : state * list item :=
   match b_dest m with
   | None =>                                   (* a broadcast signal *)
@@ -488,19 +535,31 @@ Definition dispatch (st : state) (c : cid) (m : bmsg) : state * list item :=
   | Some NDriver => to_driver st c m (driver_generic st c m)
   | Some d =>
       match primary (st_own st) d with
-      | None =>
-          (st, [entry_item st c m;
-                error_reply st c m (if b_noauto m then E_NAME_HAS_NO_OWNER else E_SERVICE_UNKNOWN)])
-      | Some r =>
-          let '(pl, verdict) := check_policy (st_pend st) c r m in
-          let st' := set_pend st pl in
-          match verdict with
-          | Some e => (st', [mk_item st (Some c) (Some r) m None []; error_reply st' c m e])
-          | None =>
-              let '(rs, refused) := fanout st' (Some c) (Some r) m in
-              (st', mk_item st (Some c) (Some r) m (Some r) rs :: refused)
-          end
+      | None => no_owner st c d m
+      | Some r => deliver st c r m false
       end
+  end.
+
+(* bus_activation_send_pending_auto_activation_messages: the entries held for the name, oldest first, to its new
+   primary owner; entries of senders that have left are skipped; the pending activation is then forgotten *)
+Fixpoint resume_all (st : state) (r : cid) (l : list (name * cid * bmsg)) : state * list item :=
+  match l with
+  | [] => (st, [])
+  | (_, c, m) :: rest =>
+      if connected st c then
+        let '(st1, i1) := deliver st c r m true in
+        let '(st2, i2) := resume_all st1 r rest in
+        (st2, i1 ++ i2)
+      else resume_all st r rest
+  end.
+
+Definition held_for (nm : name) (h : name * cid * bmsg) : bool := name_eqb (fst (fst h)) nm.
+
+Definition release_held (st : state) (nm : name) : state * list item :=
+  match primary (st_own st) nm with
+  | None => (st, [])
+  | Some r => resume_all (set_held st (filter (fun h => negb (held_for nm h)) (st_held st))) r
+                         (filter (held_for nm) (st_held st))
   end.
 
 (* ---------------------------------------------------------------- driver methods *)
@@ -517,7 +576,8 @@ Definition request_name (st : state) (c : cid) (serial n : N) (dnq : bool) : sta
         else if memN c (queue (st_own st) nm) then (st, [], 2)                       (* IN_QUEUE, flags refreshed *)
         else (set_own st (st_own st ++ [(nm, c)]), [], 2)                            (* IN_QUEUE *)
     end in
-  (st', l ++ [from_driver st' c (reply_msg c serial [ANum code])]).
+  let '(st'', l2) := release_held st' nm in          (* end of bus_registry_acquire_service *)
+  (st'', l ++ l2 ++ [from_driver st'' c (reply_msg c serial [ANum code])]).
 
 Definition release_name (st : state) (c : cid) (serial n : N) : state * list item :=
   let nm := NWk n in
@@ -530,7 +590,7 @@ Definition release_name (st : state) (c : cid) (serial n : N) : state * list ite
   (st', l ++ [from_driver st' c (reply_msg c serial [ANum code])]).
 
 Definition add_match (st : state) (c : cid) (serial : N) (f : flt) : state * list item :=
-  let st' := mkState (st_conns st) (st_next st) (st_own st) (st_rules st ++ [(c, f)]) (st_mrules st) (st_mons st) (st_pend st) in
+  let st' := upd st (st_conns st) (st_next st) (st_own st) (st_rules st ++ [(c, f)]) (st_mrules st) (st_mons st) (st_pend st) in
   (st', [from_driver st' c (reply_msg c serial [])]).
 
 Definition get_id (st : state) (c : cid) (serial : N) : state * list item :=
@@ -540,33 +600,56 @@ Definition get_id (st : state) (c : cid) (serial : N) : state * list item :=
 Definition become_monitor (st : state) (c : cid) (serial : N) (fs : list flt) : state * list item :=
   let fs' := match fs with [] => [empty_filter] | _ => fs end in              (* zero-length array becomes [""] *)
   let ack := from_driver st c (reply_msg c serial []) in                      (* the ack is staged first *)
-  let st1 := mkState (st_conns st) (st_next st) (st_own st) (st_rules st)
+  let st1 := upd st (st_conns st) (st_next st) (st_own st) (st_rules st)
                      (st_mrules st ++ map (fun f => (c, f)) fs') (st_mons st) (st_pend st) in   (* bcd_add_monitor_rules *)
   let '(st2, rel) := release_all st1 c (owned (st_own st1) c) in              (* services_owned, first to last *)
-  let st3 := mkState (st_conns st2) (st_next st2) (st_own st2) (drop_rules (st_rules st2) c)
+  let st3 := upd st2 (st_conns st2) (st_next st2) (st_own st2) (drop_rules (st_rules st2) c)
                      (st_mrules st2) (st_mons st2 ++ [c]) (st_pend st2) in    (* ordinary rules go, link_in_monitors set *)
   let '(st4, nr) := noreply_items st3 c in                                    (* bus_connection_drop_pending_replies *)
   (st4, ack :: rel ++ nr).
 
+(* bus_driver_handle_message (METHOD_FLAG_PRIVILEGED, signature "asu") and the first half of
+   bus_driver_handle_become_monitor: every refusal happens before anything is changed *)
+Fixpoint parse_all (rs : list (option flt)) : option (list flt) :=
+  match rs with
+  | [] => Some []
+  | None :: _ => None                                   (* bus_match_rule_parse fails: MatchRuleInvalid *)
+  | Some f :: rest => match parse_all rest with Some l => Some (f :: l) | None => None end
+  end.
+
+Definition become_monitor_call (st : state) (c : cid) (serial : N) (sig_ok : bool) (flags : N) (rs : list (option flt))
+  : state * list item :=
+  let m := call_msg c serial I_MONITORING M_BECOME_MONITOR in
+  if memN c (st_unpriv st) then (st, [error_reply st c m E_ACCESS_DENIED])        (* bus_driver_check_caller_is_privileged *)
+  else if negb sig_ok then (st, [error_reply st c m E_INVALID_ARGS])              (* dbus_message_has_signature (message, "asu") *)
+  else if negb (flags =? 0) then (st, [error_reply st c m E_INVALID_ARGS])        (* "does not support any flags yet" *)
+  else match parse_all rs with
+       | None => (st, [error_reply st c m E_MATCH_RULE_INVALID])
+       | Some fs => become_monitor st c serial fs
+       end.
+
 (* bus_driver_handle_hello: the Hello call is captured before the connection has a name, but the message
    object handed to monitors is the one whose SENDER handle_hello later sets to the new unique name *)
-Definition connect (st : state) : state * list item :=
+Definition connect (st : state) (priv : bool) : state * list item :=
   let c := st_next st in
   let hello := call_msg c 1 I_DBUS M_HELLO in
   let i0 := mk_item st (Some c) None hello None [] in
-  let st1 := mkState (st_conns st ++ [c]) (st_next st + 1) (st_own st) (st_rules st) (st_mrules st) (st_mons st) (st_pend st) in
+  let st1 := upd st (st_conns st ++ [c]) (st_next st + 1) (st_own st) (st_rules st) (st_mrules st) (st_mons st) (st_pend st) in
   let welcome := from_driver st1 c (reply_msg c 1 [AName (NUniq c)]) in
   let noc := noc_item st1 (NUniq c) None (Some c) in
   let acq := from_driver st1 c (acquired_msg c (NUniq c)) in
-  (set_own st1 (st_own st1 ++ [(NUniq c, c)]), [i0; welcome; noc; acq]).
+  let st2 := set_own st1 (st_own st1 ++ [(NUniq c, c)]) in
+  (mkState (st_conns st2) (st_next st2) (st_own st2) (st_rules st2) (st_mrules st2) (st_mons st2) (st_pend st2)
+           (if priv then st_unpriv st2 else st_unpriv st2 ++ [c]) (st_held st2),
+   [i0; welcome; noc; acq]).
 
 (* bus_connection_disconnected *)
 Definition disconnect (st : state) (c : cid) : state * list item :=
   if is_monitor st c then
-    (mkState (filter (fun x => negb (x =? c)) (st_conns st)) (st_next st) (st_own st) (st_rules st)
+    (upd st (filter (fun x => negb (x =? c)) (st_conns st)) (st_next st) (st_own st) (st_rules st)
              (mm_disconnected (st_mrules st) c) (filter (fun x => negb (x =? c)) (st_mons st)) (st_pend st), [])
   else
-    let st1 := mkState (filter (fun x => negb (x =? c)) (st_conns st)) (st_next st) (st_own st)
+    let st1 := upd st (filter (fun x => negb (x =? c)) (st_conns st)) (st_next st) (st_own st)
                        (drop_rules (st_rules st) c) (st_mrules st) (st_mons st) (st_pend st) in
     let '(st2, rel) := release_all st1 c (rev (owned (st_own st1) c)) in       (* _dbus_list_get_last first *)
     let '(st3, nr) := noreply_items st2 c in
@@ -592,17 +675,17 @@ Definition wf_msg (m : bmsg) : bool :=
 
 Definition wf_event (st : state) (e : event) : bool :=
   match e with
-  | EConnect => true
+  | EConnect _ => true
   | EDisconnect c => connected st c
   | ESend c m => connected st c && wf_msg m
-  | ERequestName c s _ _ | EReleaseName c s _ | EAddMatch c s _ | EGetId c s | EBecomeMonitor c s _ =>
+  | ERequestName c s _ _ | EReleaseName c s _ | EAddMatch c s _ | EGetId c s | EBecomeMonitor c s _ _ _ =>
       connected st c && negb (s =? 0)
   end.
 
 Definition step (st : state) (e : event) : state * list item :=
   if negb (wf_event st e) then (st, []) else
   match e with
-  | EConnect => connect st
+  | EConnect priv => connect st priv
   | EDisconnect c => disconnect st c
   | _ =>
     match actor e, wire_msg e with
@@ -616,7 +699,7 @@ Definition step (st : state) (e : event) : state * list item :=
              | EReleaseName _ s n => to_driver st c m (release_name st c s n)
              | EAddMatch _ s f => to_driver st c m (add_match st c s f)
              | EGetId _ s => to_driver st c m (get_id st c s)
-             | EBecomeMonitor _ s fs => to_driver st c m (become_monitor st c s fs)
+             | EBecomeMonitor _ s sig_ok flags rs => to_driver st c m (become_monitor_call st c s sig_ok flags rs)
              | _ => (st, [])
              end
     | _, _ => (st, [])
